@@ -228,14 +228,29 @@ def run(ctx: Ctx) -> None:
 
     # --- T5 get_trace
     gt = p.get_func('tracing.get_trace')
-    sums = [c for c in p.calls_in(gt) if isinstance(c.func, ast.Name) and c.func.id == 'sum' and c.args]
-    lens = [c for c in p.calls_in(gt) if isinstance(c.func, ast.Name) and c.func.id == 'len' and c.args]
+    # the per-function statistic may live in a helper that get_trace calls once per traced function: the sum / count /
+    # window obligations are then checked there, with the helper's parameter that receives max_history
+    sf, mh = gt, 'max_history'
+    if not any(isinstance(c.func, ast.Name) and c.func.id == 'sum' for c in p.calls_in(gt)):
+        for c in p.calls_in(gt):
+            for t in p.resolve_call(gt, c):
+                if t.kind == 'func' and t.ref.module == gt.module and any(isinstance(c2.func, ast.Name) and c2.func.id == 'sum' for c2 in p.calls_in(t.ref)):
+                    sf = t.ref
+                    names = [a_ for a_ in sf.params]
+                    for i_, a_ in enumerate(c.args):
+                        if norm(a_) == 'max_history' and i_ < len(names):
+                            mh = names[i_]
+                    for k_ in c.keywords:
+                        if norm(k_.value) == 'max_history' and k_.arg:
+                            mh = k_.arg
+    sums = [c for c in p.calls_in(sf) if isinstance(c.func, ast.Name) and c.func.id == 'sum' and c.args]
+    lens = [c for c in p.calls_in(sf) if isinstance(c.func, ast.Name) and c.func.id == 'len' and c.args]
     gmod = p.modules[gt.module]
     for sc in sums:
         par = gmod.parents.get(id(sc))
-        ctx.ok('T5', gt, f'sum over {norm(sc.args[0])}', sc)
+        ctx.ok('T5', sf, f'sum over {norm(sc.args[0])}', sc)
         # divisions in the same loop
-        for n in p.nodes(gt):
+        for n in p.nodes(sf):
             div = None
             if isinstance(n, ast.AugAssign) and isinstance(n.op, ast.Div):
                 div = n.value
@@ -248,32 +263,32 @@ def run(ctx: Ctx) -> None:
                 # no rebinding of the list between sum() and len()
                 if same:
                     nm = sc.args[0].id  # type: ignore[union-attr]
-                    rebinds = [a for a in p.nodes(gt) if isinstance(a, (ast.Assign, ast.AugAssign)) and any(isinstance(t, ast.Name) and t.id == nm for t in (a.targets if isinstance(a, ast.Assign) else [a.target]))
+                    rebinds = [a for a in p.nodes(sf) if isinstance(a, (ast.Assign, ast.AugAssign)) and any(isinstance(t, ast.Name) and t.id == nm for t in (a.targets if isinstance(a, ast.Assign) else [a.target]))
                                and sc.lineno <= a.lineno <= div.lineno and a.lineno != sc.lineno]
                     same = not rebinds
-                ctx.check(same, 'T5', gt, f'mean divides by len({norm(div.args[0])}) of the summed list', norm(n),
+                ctx.check(same, 'T5', sf, f'mean divides by len({norm(div.args[0])}) of the summed list', norm(n),
                           f'the mean divides sum({norm(sc.args[0])}) by len({norm(div.args[0])}): sum and count are taken over different lists', n)
             else:
-                ctx.violate('T5', gt, norm(n), f'the mean divides by {norm(div)}, not by the number of summed samples', n)
+                ctx.violate('T5', sf, norm(n), f'the mean divides by {norm(div)}, not by the number of summed samples', n)
     if not sums:
-        ctx.violate('T5', gt, 'get_trace', 'get_trace does not sum the samples', gt.node)
+        ctx.violate('T5', sf, 'get_trace', 'get_trace does not sum the samples', gt.node)
     # window slice
-    for n in p.nodes(gt):
+    for n in p.nodes(sf):
         if isinstance(n, ast.Subscript) and isinstance(n.slice, ast.Slice) and isinstance(n.ctx, ast.Load):
             sl = n.slice
             ok = (sl.upper is None and sl.step is None and isinstance(sl.lower, ast.UnaryOp) and isinstance(sl.lower.op, ast.USub)
-                  and norm(sl.lower.operand) == 'max_history')
-            ctx.check(ok, 'T5', gt, 'window = last max_history samples', norm(n),
+                  and norm(sl.lower.operand) == mh)
+            ctx.check(ok, 'T5', sf, 'window = last max_history samples', norm(n),
                       f'window slice {norm(n)} does not select the last max_history samples', n)
     # windowed list must be the one summed: the slice result is assigned to the summed name
-    for n in p.nodes(gt):
+    for n in p.nodes(sf):
         if isinstance(n, ast.Assign) and isinstance(n.value, ast.Subscript) and isinstance(n.value.slice, ast.Slice):
             tgt = n.targets[0]
             ok = bool(sums) and isinstance(tgt, ast.Name) and all(norm(sc.args[0]) == tgt.id for sc in sums) and norm(n.value.value) == tgt.id
-            ctx.check(ok, 'T5', gt, 'the windowed list is the list that is summed', norm(n),
+            ctx.check(ok, 'T5', sf, 'the windowed list is the list that is summed', norm(n),
                       f'the window {norm(n)} is not applied to the list that is summed', n)
-    if not any(isinstance(n, ast.Subscript) and isinstance(n.slice, ast.Slice) for n in p.nodes(gt)):
-        ctx.violate('T5', gt, 'get_trace', 'max_history is not honoured: no window slice in get_trace', gt.node)
+    if not any(isinstance(n, ast.Subscript) and isinstance(n.slice, ast.Slice) for n in p.nodes(sf)):
+        ctx.violate('T5', sf, 'get_trace', 'max_history is not honoured: no window slice in get_trace', gt.node)
     # the iterated table is the one written by the wrapper
     iter_tabs = {n.value.id for n in p.nodes(gt) if isinstance(n, ast.Attribute) and n.attr == 'items' and isinstance(n.value, ast.Name)}
     ctx.check(bool(iter_tabs & tables), 'T5', gt, f'get_trace reads table {sorted(iter_tabs & tables)}', 'table',
